@@ -209,10 +209,6 @@ def compare_map(c, xm, base, o):
     if not o["Gid"].startswith("!"):
         toks = [] if o["Gid"] == "-" else o["Gid"].split(",")
         v, e = try_(lambda: xm.get_map_data("rotations"))
-        if e is not None and n <= 3 and e.startswith("ValueError:cannot reshape"):
-            # the code as found: the RGB/Euler branch assumes more than three original points (known finding
-            # C11-map-data-rotations-small-grid, reported by the prop site); the correspondence tolerates it
-            return None
         if e is not None:
             return f"get_map_data('rotations') raises {e}"
         if tuple(v.shape) != shp + (3,):
@@ -542,35 +538,7 @@ def pred_grid_1x1(case):
     return "degenerate" in msg
 
 
-def pred_item_len3(case):
-    """a 1-D array of three values on a map with more than three original points is taken for one RGB triple"""
-    if "item" not in case or case["ny"] * case["nx"] <= 3:
-        return False
-    ref = ref_of(case)
-    try:
-        for k in case["keys"]:
-            ref = ref.select(k)
-    except G.RefError:
-        return False
-    if len(ref.S) != 3:
-        return False
-    with warnings.catch_warnings():
-        warnings.simplefilter("ignore")
-        msg = item_check(None, case, []) or ""
-    return "array of 3 values) has shape" in msg
-
-
-def pred_rotations_small_grid(case):
-    """get_map_data('rotations') on an original grid of at most three points"""
-    if case.get("ny", 9) * case.get("nx", 9) > 3 or pred_grid_1x1(case):
-        return False
-    with warnings.catch_warnings():
-        warnings.simplefilter("ignore")
-        msg = setsem_run(case) or ""
-    return "get_map_data('rotations') raises ValueError:cannot reshape" in msg
-
-
-PREDICATES = {"grid_1x1": pred_grid_1x1, "item_len3": pred_item_len3, "rotations_small_grid": pred_rotations_small_grid}
+PREDICATES = {"grid_1x1": pred_grid_1x1}
 
 
 def tally(ctx, stratum):
